@@ -104,9 +104,12 @@ theorem unmarshal_total_inbounds_of_sites_ok (C : Cfg) (hS : C.sites.ok = true) 
     | _ => True := unmarshal_total_inbounds_generic C hS hR b fuel
 
 open JanetModel.Unmarsh.Bytes in
-theorem unmarshal_terminates_of_sites_ok (C : Cfg) (hS : C.sites.ok = true) (hR : C.refsChecked = true) (b : Array Nat) (fuel : Nat)
+/-- `hI`: every call path from one `MARSH_STACKCHECK` to the next adds ≥ 1 to the depth counter (the `flags + k` arguments of
+    the 28 recursive call sites are REGENERATED from marsh.c into `C.inc`; obligation `BytesObligations.depths_ok`) -/
+theorem unmarshal_terminates_of_sites_ok (C : Cfg) (hS : C.sites.ok = true) (hR : C.refsChecked = true) (hI : C.inc.ok = true)
+    (b : Array Nat) (fuel : Nat)
     (hf : fuelBound C ≤ fuel) : ∀ a, unmarshal C b fuel ≠ .fuel ∧ unmarshal C b fuel ≠ .oob a :=
-  unmarshal_terminates_generic C hS hR b fuel hf
+  unmarshal_terminates_generic C hS hR hI b fuel hf
 
 namespace BytesExamples
 open JanetModel.Unmarsh.Bytes
@@ -118,12 +121,19 @@ def goodSites : Sites :=
     ptrBuf := ⟨some 8, -1⟩, unsafeCfun := ⟨some 8, -1⟩, thrAbs := ⟨some 8, -1⟩, ubyte := ⟨some 0, 0⟩,
     ubytes := ⟨some (-1), -1⟩, ensure := ⟨some 0, -1⟩ }
 
+/-- the increments of the current marsh.c: `unmarshal_one_env` passes `flags` on, its two callers pass `flags + 1` -/
+def goodIncs : Incs :=
+  { envFiber := 0, envValue := 0, defName := 1, defSource := 1, defConst := 1, defSym := 1, defSub := 1, fbFrameFn := 1,
+    fbFrameEnv := 1, fbSlot := 1, fbEnv := 1, fbChild := 1, fbLast := 1, hookJanet := 1, absKey := 1, oneFiber := 1,
+    oneDef := 1, oneEnv := 1, oneAbstract := 0, arrElem := 1, tupElem := 1, structProto := 1, structKey := 1, structVal := 1,
+    tabProto := 1, tabKey := 1, tabVal := 1, absCtx := 1 }
+
 def mk (S : Sites) : Cfg :=
-  { sites := S, verify := fun _ => true, pegVerify := fun _ _ => true, pegSizeChecked := true, abstracts := [], jopCall := 53, threads := false,
+  { sites := S, inc := goodIncs, verify := fun _ => true, pegVerify := fun _ _ => true, pegSizeChecked := true, abstracts := [], jopCall := 53, threads := false,
     refChecked := true, envRefChecked := true, defRefChecked := true }
 
 /-- non-vacuity: the hypothesis is satisfiable, and the model accepts / rejects / consumes as the C does on small images -/
-example : (mk goodSites).sites.ok = true ∧ (mk goodSites).refsChecked = true := by decide
+example : (mk goodSites).sites.ok = true ∧ (mk goodSites).refsChecked = true ∧ (mk goodSites).inc.ok = true := by decide
 /-- a source without the `len >= janet_v_count(st->lookup)` test: the model reads past the reference table on `da 00` -/
 example : (match unmarshal { mk goodSites with refChecked := false } #[218, 0] 20 with | .oob 100 => true | _ => false) = true := by decide
 example : (match unmarshal (mk goodSites) #[209, 3, 1, 129, 0, 201] 20 with | .ok .arr c => c.pos == 6 | _ => false) = true := by decide
@@ -132,6 +142,22 @@ example : (match unmarshal (mk goodSites) #[206, 2, 104, 105, 7] 20 with | .ok .
 
 /-- `readint` without `MARSH_EOS(st, data + 1)` in its two-byte branch -/
 def noInt2 : Sites := { goodSites with int2 := ⟨none, 1⟩ }
+
+/-- a source in which both callers of `unmarshal_one_env` pass `flags` instead of `flags + 1`: the cycle
+    function → environment → value → function no longer counts -/
+def uncountedIncs : Incs := { goodIncs with oneEnv := 0, fbFrameEnv := 0 }
+def mkInc (I : Incs) : Cfg :=
+  { sites := goodSites, inc := I, verify := fun r => decide (0 < r.bytecode.length), pegVerify := fun _ _ => true, pegSizeChecked := true,
+    abstracts := [], guardDepth := 3, jopCall := 53, threads := false, refChecked := true, envRefChecked := true, defRefChecked := true }
+def envUncounted : Cfg := mkInc uncountedIncs
+
+/-- `n` nested functions, each with one off-stack environment of one value = the next function (the first carries the
+    funcdef `flags=HASENVS slots=1 arity=0 min=0 max=0 consts=0 bclen=1 nenvs=1 | word | env -1`, the others refer to it) -/
+def nestedFns : Nat → List Nat
+  | 0 => [201]
+  | n + 1 => [215, 1, 220, 0, 0, 1] ++ nestedFns n
+def nestedImage (n : Nat) : Array Nat :=
+  ([215, 1, 205, 0, 64, 0, 0, 1, 0, 0, 0, 0, 1, 1, 4, 0, 0, 0, 191, 255, 0, 1] ++ nestedFns n).toArray
 end BytesExamples
 
 /-- a source that lacks one test: the obligation `Sites.ok` is false and the model itself exhibits the over-read input
@@ -141,5 +167,18 @@ theorem witness_missing_check_over_reads :
     (BytesExamples.mk BytesExamples.noInt2).sites.ok = false ∧
     (match JanetModel.Unmarsh.Bytes.unmarshal (BytesExamples.mk BytesExamples.noInt2) #[129] 20 with
       | .oob 1 => true | _ => false) = true := by decide
+
+/-- a source whose two `unmarshal_one_env` call sites pass `flags` on: `Incs.ok` is false (`Incs.bad` names the paths), and
+    the model — here with a recursion guard of 3 and `fuelBound` = 12 levels — runs out of fuel on an image nested 12
+    functions deep, where the model with the increments of the current source stops with "stack overflow" at depth 4.
+    checks/C10.py feeds the same image shape (nested 10^5 deep) to the real unmarshaller. -/
+theorem witness_uncounted_env_recursion :
+    BytesExamples.envUncounted.inc.ok = false ∧
+    (match JanetModel.Unmarsh.Bytes.unmarshal BytesExamples.envUncounted (BytesExamples.nestedImage 12)
+        (JanetModel.Unmarsh.Bytes.fuelBound BytesExamples.envUncounted) with | .fuel => true | _ => false) = true ∧
+    (match JanetModel.Unmarsh.Bytes.unmarshal (BytesExamples.mkInc BytesExamples.goodIncs) (BytesExamples.nestedImage 12)
+        (JanetModel.Unmarsh.Bytes.fuelBound BytesExamples.envUncounted) with | .err .stack => true | _ => false) = true ∧
+    (match JanetModel.Unmarsh.Bytes.unmarshal (BytesExamples.mkInc BytesExamples.goodIncs) (BytesExamples.nestedImage 2)
+        (JanetModel.Unmarsh.Bytes.fuelBound BytesExamples.envUncounted) with | .ok (.func _) c => c.pos == 35 | _ => false) = true := by decide +kernel
 
 end JanetModel.Props.C10
